@@ -17,6 +17,7 @@ import (
 	"runtime"
 	"runtime/debug"
 	"sort"
+	"strconv"
 	"strings"
 	"time"
 
@@ -485,9 +486,18 @@ func main() {
 				return string(b)
 			})
 		}
+		// fw.Supervise polls Stop only when it (re)starts a child, so the child enforces the budget itself:
+		// after the deadline (or once this child alone has collected 40 violations) remaining batches are skipped.
+		deadline, _ := strconv.ParseInt(os.Getenv("C06_DEADLINE"), 10, 64)
+		found := 0
 		fw.ChildLoop(func(i int) string {
+			if (deadline > 0 && time.Now().Unix() > deadline) || found >= 40 {
+				return "skipped"
+			}
 			c := sp.cases[i]
-			b, _ := json.Marshal(runBatch(sp, c.sec, c.lo, c.hi, os.Getenv("C06_PASS")))
+			br := runBatch(sp, c.sec, c.lo, c.hi, os.Getenv("C06_PASS"))
+			found += len(br.Viols)
+			b, _ := json.Marshal(br)
 			return string(b)
 		})
 		return
@@ -519,11 +529,12 @@ func main() {
 	secWords := make([]int64, len(sp.secs))
 	for _, pass := range []string{"clobber", "plain"} { // the small pass first, so that a budget cap cannot starve it
 		// GOMAXPROCS=2: a child executes its words sequentially; more Ps only add GC threads that compete with the other children.
-		env := []string{"C06_PASS=" + pass, "GOMAXPROCS=2"}
+		env := []string{"C06_PASS=" + pass, "GOMAXPROCS=2", "C06_DEADLINE=" + strconv.FormatInt(run.Deadline.Unix(), 10)}
 		if pass == "clobber" {
 			env = append(env, "GODEBUG=clobberfree=1") // freed objects (outgrown native stacks) are overwritten
 		}
 		var crashed []int
+		skipped := 0
 		done := fw.Supervise(fw.SupOpts{N: nBatches, Workers: workers, CaseTimeout: 300 * time.Second, Mode: "batch", Env: env,
 			Stop: func() bool { return run.Expired() || len(allViols) >= 40 || len(crashed) >= 8 }},
 			func(i int, res string, crash *fw.Crash) {
@@ -531,15 +542,19 @@ func main() {
 					crashed = append(crashed, i)
 					return
 				}
+				if res == "skipped" {
+					skipped++
+					return
+				}
 				before := words
 				absorb(res)
 				secWords[sp.cases[i].sec] += words - before
 			})
-		if done < nBatches {
+		if done < nBatches || skipped > 0 {
 			if run.Expired() {
 				run.Capped("budget")
 			} else {
-				run.Capped("stopped early: 40 violations / 8 crashed batches are enough to report") // fw keeps at most 40 replay files
+				run.Capped("stopped early: enough violations / crashed batches to report") // fw keeps at most 40 replay files
 			}
 		}
 		if len(crashed) == 0 {
